@@ -54,10 +54,12 @@ def judgeB (keep : Match → Bool) (dontCare : Match → Bool) (qfree : Bool) (u
   let got := r.filter fun m => !dontCare m
   if qfree then decide (exp.map Match.key = got.map Match.key)
   else
-    -- with quantifiers the surviving (longest) capture list may differ under a range: compare roots
+    -- with quantifiers / alternations the surviving capture list may differ under a range and a
+    -- match whose completion is deferred past the range can be lost: only soundness is required
+    -- (every returned match is rooted at a node the filter keeps)
     let er := exp.map fun m => (m.pat, m.root)
     let gr := got.map fun m => (m.pat, m.root)
-    er.all (fun x => gr.contains x) && gr.all (fun x => er.contains x)
+    gr.all (fun x => er.contains x)
 
 /-- Zero-width roots (MISSING tokens, empty rules): the code's conventions disagree with each other
 (`range_within` vs the `range_intersects` that gates descent; a parent that ends where the range
@@ -91,8 +93,9 @@ def idUnique (u : List CapEv) (id : Nat) : Bool :=
 /-- Clause (e): after removing the match of the event at `pos`, the stream up to `pos` is
 unchanged; every capture of the *other* matches is still reported; nothing new is reported; and
 for a quantifier-free query in which the id names a single match and no triple is reported twice,
-the captures only that match would still have delivered are gone (with quantifiers a removal can
-revive an alternative, shorter match of the same nodes: implementation-defined).
+the captures only that match would still have delivered are gone (with quantifiers split states share
+a match id and a removal can revive an alternative, shorter match of the same nodes, so there only
+"prefix unchanged" is required: implementation-defined otherwise).
 (Compared as triples: match ids of later states may be renumbered after a removal.) -/
 def judgeE (u e : List CapEv) (pos : Nat) (qfree : Bool) : Bool :=
   match u[pos]? with
@@ -104,8 +107,8 @@ def judgeE (u e : List CapEv) (pos : Nat) (qfree : Bool) : Bool :=
     let own := (uLater.filter fun ev => ev.id == x.id).map CapEv.triple
     let before := (u.take (pos + 1)).map CapEv.triple
     decide (e.take (pos + 1) = u.take (pos + 1)) &&
-    subsetB others eLater &&
-    subsetB eLater (u.map CapEv.triple) &&
+    (!qfree || subsetB others eLater) &&
+    (!qfree || subsetB eLater (u.map CapEv.triple)) &&
     (!(qfree && idUnique u x.id && decide ((u.map CapEv.triple).Nodup)) ||
       own.all fun t => others.contains t || before.contains t || !eLater.contains t)
 
